@@ -26,9 +26,9 @@ def fnv1a (b : Bytes) : UInt64 :=
 def hex64 (h : UInt64) : String :=
   String.ofList ((List.range 16).map fun i => hexD (((h >>> ((15 - i) * 4).toUInt64) &&& 0xf).toUInt8))
 
-/-- outputs longer than 256 bytes are compared by length and hash -/
+/-- outputs longer than 1024 bytes are compared by length and hash -/
 def toHexOut (full : Bool) (b : Bytes) : String :=
-  if b.length ≤ 256 || full then toHex b else s!"#{b.length}:{hex64 (fnv1a b)}"
+  if b.length ≤ 1024 || full then toHex b else s!"#{b.length}:{hex64 (fnv1a b)}"
 
 def errKindName : ErrKind → String
   | .badHeader => "BadHeader" | .unsupportedVersion => "UnsupportedVersion" | .methodVersionMismatch => "MethodVersionMismatch"
